@@ -325,3 +325,29 @@ Proof.
               F ws m1 r1 ev s HF HFv Hm1 Mm1 FI Q H) as (m & Hn & Mm).
   destruct (newest_send_last (rev ev) m Hn) as [more E]. rewrite rev_involutive in E. exists more, m. split; assumption.
 Qed.
+
+(* ---- through the session: after `go` the engine's board is the position after a mating move, and that move is printed *)
+Theorem go_plays_the_mate zt osort :
+  (forall i l, Permutation l (osort i l)) -> (forall i l, sorted_desc (osort i l) = true) ->
+  forall st cmds sc gt st' outs F ws m1 r1,
+  1 <= PLYMAX - NULL_PLY_OFFSET * Z.of_nat (sc_fuel sc) ->
+  parse_go_command cmds = Ok gt -> go_step zt osort st cmds sc = (st', outs) -> ss_phase st' = Running ->
+  pos_ok (ss_board st) AllMoves -> order_heuristic (ss_board st) < POS_INF -> dt_nonneg (ss_table st) ->
+  (forall y, In y (generate_moves zt (ss_board st) AllMoves) -> mated zt y -> is_threefold_repetition (ss_table st) y = false) ->
+  1 + Z.of_nat F <= 100 ->
+  Forall2 (fun m x => negamax zt F m (1 - 1) 1 (ss_table st) = Some x) (generate_moves zt (ss_board st) AllMoves) ws ->
+  In m1 (generate_moves zt (ss_board st) AllMoves) -> mated zt m1 ->
+  first_iteration zt osort (sc_k sc) (sc_fuel sc) (ss_board st) (ss_table st) = Ok (Some r1, r1) -> quiet (sc_k sc) (r_s r1) ->
+  mated zt (ss_board st') /\ exists t infos, best_move_text (ss_board st') = Ok t /\ outs = infos ++ [s_bestmove ++ t].
+Proof.
+  intros Pm Sm st cmds sc gt st' outs F ws m1 r1 Hfuel PG GS RU PO Oh NN New HF HFv Hm1 Mm1 FI Q.
+  assert (NE : forall i l, l <> [] -> osort i l <> []).
+  { intros i l Hl E. pose proof (Pm i l) as P. rewrite E in P. apply Permutation_sym, Permutation_nil in P. contradiction. }
+  assert (NG : generate_moves zt (ss_board st) AllMoves <> []) by (intros E; rewrite E in Hm1; contradiction).
+  assert (HF2 : NULL_PLY_OFFSET * Z.of_nat (sc_fuel sc) + 1 <= 2 * M) by (unfold PLYMAX, NULL_PLY_OFFSET, MATE_SCORE in *; lia).
+  destruct (go_plays_the_newest_send zt osort NE st cmds sc gt st' outs HF2 PG NG GS RU) as (ev & s & b & t & more & GB & SE & BT & SB & OU).
+  destruct (mate_in_one_is_played_whatever_the_deadline zt osort Pm Sm (sc_k sc) (sc_fuel sc) (ss_board st) (ss_table st) F ws m1 r1 ev s
+              Hfuel PO Oh NN New HF HFv Hm1 Mm1 FI Q GB) as (more' & m & SE' & Mm).
+  rewrite SE in SE'. apply app_inj_tail in SE'. destruct SE' as [_ <-].
+  rewrite SB. split; [exact Mm|]. exists t, (infos_of ev). split; assumption.
+Qed.
